@@ -229,6 +229,75 @@ def run(ctx):
                "terminal kind %s may be skipped: %s" % (K, ALLOWED_SKIP.get(K, "NOT in the enumerated optional tokens")), sst.where())
     ctx.floor("should_skip_terminal true-returning blocks", len(set(true_blocks)), 3)
 
+    # ---------------- R11.9 the optional `;` after a block-like statement is dropped on the word of the parser's table
+    # The parser continues an expression statement with the next token exactly when `get_post_operator_precedence(kind)`
+    # is Some (try_parse_expr_limited): dropping the `;` in front of such a token glues two statements into one
+    # expression.  Whatever decides the drop must therefore be that table applied to the first token of the next
+    # statement (or the absence of any token).
+    TABLE = "operators::get_post_operator_precedence"
+
+    def consults(fn):
+        """calls of the table in fn whose argument is the kind of a token"""
+        return [c for c in fn.calls() if c.path.endswith(TABLE) and c.args and "c:kind" in op_prov(fn, c.args[0], 8)]
+
+    def closure_arg(fn, c):
+        for a in c.args:
+            l = op_local(a)
+            d = fn.single_def(fn.resolve_copy(l)) if l is not None else None
+            if d and d[0] == "stmt" and d[3][0] == "agg" and d[3][1] == "closure":
+                g = F.fns.get(d[3][2])
+                if g is not None:
+                    yield g
+    semi = [(bb, s_) for bb, K, s_ in tests if K == "TerminalSemicolon"]
+    n_consult = 0
+    srcs = []
+    for i, j, st in sst.stmts():
+        if st[0] == "a" and place_local(st[1]) == 0 and isinstance(st[1], int):
+            k = op_const(st[2][1]) if st[2][0] == "use" else None
+            if k and k[0] == "int" and k[1] == 0:
+                continue
+            srcs.append((i, "const-true" if (k and k[0] == "int") else "computed", st, None))
+    for c in sst.calls():
+        if place_local(c.dest) == 0 and isinstance(c.dest, int):
+            srcs.append((c.bb, "call", None, c))
+    for b, how, st, c in srcs:
+        if not any(sst.dominates(s_, b) for _, s_ in semi):
+            continue
+        ok = False
+        why = ""
+        if how == "call":
+            direct = TABLE in c.path or "c:get_post_operator_precedence" in set().union(*[op_prov(sst, a, 10) for a in c.args] or [set()])
+            via = [g for g in closure_arg(sst, c) if consults(g) and "c:get_post_operator_precedence" in prov(g, 0, 10)]
+            ok = bool(direct and consults(sst)) or bool(via)
+            why = "result of %s(..)" % c.name()
+        elif how == "computed":
+            toks = set()
+            for o in rvalue_operands(st[2]):
+                toks |= op_prov(sst, o, 12)
+            ok = "c:get_post_operator_precedence" in toks and bool(consults(sst))
+            why = "computed result"
+        else:
+            # a constant `true`: only where the next statement has no token at all (the None edge of `tokens().next()`)
+            why = "constant true"
+            for sb, t in sst.switches():
+                si = sst.switch_info(sb)
+                if not si or si[0] != "disc" or "Option" not in (si[2] or ""):
+                    continue
+                toks = prov(sst, place_local(si[1]), 8)
+                if not ({"c:next", "c:first", "c:tokens"} & toks) or "c:cast" in toks:
+                    continue
+                none_succ = [s2 for v, s2 in t[2] if v == 0] or ([t[3]] if all(v != 0 for v, _ in t[2]) else [])
+                if any(sst.dominates(s2, b) for s2 in none_succ) and not any(sst.dominates(s2, b) for v, s2 in t[2] if v == 1):
+                    ok = True
+        n_consult += 1 if ok and how != "const-true" else 0
+        ctx.ob("R11.9", "semicolon-drop:%s#bb-order-%d" % (how, sorted(x[0] for x in srcs).index(b) + 1), ok,
+               "the `;` after a block-like statement is dropped on the word of get_post_operator_precedence(kind of the next statement's first token) (%s)" % why if ok else
+               "a `;` after a block-like statement can be dropped (%s) without consulting get_post_operator_precedence on the first token of the next statement: "
+               "the parser continues an expression with exactly those tokens, so the two statements are glued into one" % why, sst.where(sst.blocks[b].get("l") if isinstance(sst.blocks[b], dict) and sst.blocks[b].get("l") else None))
+    ctx.ob("R11.9", "semicolon-drop:consults-the-parser-table", n_consult >= 1 or not semi,
+           "%d result(s) under `kind == TerminalSemicolon` derive from the parser's post-operator table" % n_consult if n_consult or not semi else
+           "no result under `kind == TerminalSemicolon` derives from get_post_operator_precedence", sst.where())
+
     # ---------------- R11.5 options gate sorting / merging
     for callee, flag in (("merge_use_items", "merge_use_items"), ("sort_items_sections", "sort_module_level_items"),
                          ("sort_inner_use_path", "sort_module_level_items")):
